@@ -1,10 +1,11 @@
 (* C07 — whatever gopatch emits on success is syntactically valid Go. *)
 From GP Require Import Bytes Generated Cli CliFacts DriverProofs.
 
-(* Oracle assumption, visible in the statement: imports.Process only returns text
-   that parses (it parses its input and prints the tree). *)
-Definition process_validates (parses : bytes -> option bytes) (process : bytes -> bytes + bytes) :=
-  forall b b', process b = inl b' -> parses b' = None.
+(* Until repo fix 72f3dbc the statements below carried an oracle assumption - "imports.Process only
+   returns text that parses" - which is false of the real library: what it returns has been through
+   go/printer once more, and a range header with three stacked comments comes back unparseable (found
+   by a sub-agent on the unchanged tree).  gopatch now parses what it emits in every mode ([checked]
+   in Model/Cli.v), and the statements hold for EVERY behaviour of imports.Process. *)
 (* ... and rejects input that does not parse. *)
 Definition process_rejects (parses : bytes -> option bytes) (process : bytes -> bytes + bytes) :=
   forall b m, parses b = Some m -> exists m', process b = inr m'.
@@ -13,7 +14,6 @@ Definition process_rejects (parses : bytes -> option bytes) (process : bytes -> 
    parses — in every mode and with every flag combination (forall o). *)
 Theorem C07_emitted_parses :
   forall parses header_of engine process o ts e bs,
-  process_validates parses process ->
   In e (r_events (run parses header_of engine process o ts)) -> emitted e = Some bs ->
   parses bs = None.
 Proof. exact emitted_parses. Qed.
@@ -36,7 +36,6 @@ Print Assumptions C07_unparseable_is_error.
 (* The library API: a successful result parses (it is the input itself, or validated). *)
 Theorem C07_api_parses :
   forall parses engine process src bs,
-  process_validates parses process ->
   api_apply parses engine process src = inl bs -> parses bs = None.
 Proof. exact api_parses. Qed.
 Print Assumptions C07_api_parses.
@@ -54,3 +53,19 @@ Example C07_ex :
   r_events (run parses header_of engine process o [t1]) = [] /\
   exit_status (run parses header_of engine process o [t1]) = 1%N.
 Proof. vm_compute. split; reflexivity. Qed.
+
+(* Non-vacuity of the new check: imports.Process hands back text that does not parse; nothing is
+   emitted, the file is reported, the exit status is 1 *)
+Example C07_process_returns_garbage_ex :
+  let bad : bytes := [66%N] in
+  let parses := fun b : bytes => if beq b bad then Some [1%N] else None in
+  let header_of := fun _ : bytes => {| h_groups := []; h_doc := [] |} in
+  let engine := fun _ : bytes => Matched [] (inl [65%N]) in
+  let process := fun _ : bytes => @inl bytes bytes bad in
+  let o := {| o_diff := false; o_print := false; o_skip_imports := false;
+              o_skip_generated := false; o_verbose := false |} in
+  let t1 := {| t_abs := [1%N]; t_provided := [1%N]; t_read := inl [10%N]; t_write_err := None |} in
+  r_events (run parses header_of engine process o [t1]) = [] /\
+  exit_status (run parses header_of engine process o [t1]) = 1%N /\
+  api_apply parses engine process [10%N] = inr [1%N].
+Proof. vm_compute. repeat split; reflexivity. Qed.
